@@ -204,6 +204,9 @@ var c05RecShapes = []c05RecShape{
 	{"catch-closure", `try throw("x") catch e->rf(n+1)`},
 	{"closure.invoke", "let c=e->rf(e+1); c.invoke([n])"},
 	{"list.map", "[n].map(e->rf(e+1)).first()"},
+	// consumed by an index access: AccessList evaluated the lazy list on a stack of depth 0 (fixed: 7bcad40)
+	{"index-access", "numbers(2).map(e->rf(n+1))[0]"},
+	{"index-access-number", "[n,n].number((i,e)->rf(e+1))[1]"},
 	{"list.accept", "[n].accept(e->rf(e+1)>=0).size()"},
 	{"list.reduce", "[n,n].reduce((p,q)->rf(q+1))"},
 	{"list.mapReduce", "[n].mapReduce(0,(s,e)->rf(e+1))"},
@@ -551,6 +554,13 @@ type c05Obs struct {
 
 var c05DeathRe = regexp.MustCompile(`(?m)^(panic: .*|fatal error: .*|runtime: goroutine stack exceeds.*)$`)
 
+// CPU time the last worker process used (read only by the sequential retry loop)
+var c05LastCPU float64
+
+// a case run alone that is still without a result after its time limit and has used at least this much CPU time
+// was computing, not starved by other processes: a runaway computation, reported like a dead process
+const c05RunawayCPU = 45.0
+
 // run one batch of cases (same GOMAXPROCS, same stack limit) in one worker process
 func c05RunBatch(cases []c05Case, ids []int, timeout time.Duration) (map[int]c05Result, string, bool) {
 	jobs := make([]c05Job, len(cases))
@@ -575,6 +585,9 @@ func c05RunBatch(cases []c05Case, ids []int, timeout time.Duration) (map[int]c05
 	cmd.Stderr = &errb
 	cmd.Run()
 	timedOut := ctx.Err() != nil
+	if cmd.ProcessState != nil {
+		c05LastCPU = (cmd.ProcessState.UserTime() + cmd.ProcessState.SystemTime()).Seconds()
+	}
 	res := map[int]c05Result{}
 	for _, line := range strings.Split(out.String(), "\n") {
 		if strings.TrimSpace(line) == "" {
@@ -750,6 +763,9 @@ func c05RunAll(cases []c05Case) []c05Out {
 			defer func(i int) { outs[i].dur = time.Since(t1).Seconds() }(i)
 			res, death, to := c05RunBatch([]c05Case{cases[i]}, []int{i}, 150*time.Second)
 			r, have := res[i]
+			if !have && to && c05LastCPU >= c05RunawayCPU {
+				death, to = fmt.Sprintf("no result within 150 s when run alone, %.0f s of CPU time used: a computation that does not end (a bounded case takes a few seconds)", c05LastCPU), false
+			}
 			outs[i] = c05Out{c: cases[i], obs: c05Observe(cases[i], r, have, death, to)}
 		}
 	}
